@@ -168,7 +168,7 @@ Proof.
   destruct d as [[| | | | | | |]|]; try apply h_err.
   - hbn h_send_msg_T r. destruct r; cbn [negb].
     2:{ eapply hoare_bind with (R := fun _ => ST false); [|intros ?; hweak].
-        destruct (fix_f7 cfg); [apply (h_fs_void S ev0 FClosedir false (or_intror eq_refl) I)|apply h_modify; reflexivity]. }
+        destruct (fix_f7b cfg); [apply (h_fs_void S ev0 FClosedir false (or_intror eq_refl) I)|apply h_modify; reflexivity]. }
     eapply hoare_bind with (R := fun _ => ST true).
     { apply h_quiet. intros w. simpl. auto. }
     intros fuel. hbn (h_dir_loop (Datatypes.S fuel) path Hp) l.
@@ -426,7 +426,7 @@ Qed.
 (* "a transfer never outlives its connection", full statement:
      forall cfg st, fd_open (state after connection_gone) = false
    is FALSE for the unchanged tree: after a granted rfbFileTransferRequest the descriptor stays open (F7) *)
-Definition cfg_on : config := {| permit := true; has_cb := false; home := None; fix_f7 := false; fix_f14 := false |}.
+Definition cfg_on : config := {| permit := true; has_cb := false; home := None; fix_f7 := false; fix_f14 := false; fix_f7b := false |}.
 (* type 3 (request), length 1, payload "f" *)
 Definition req_input : str := [3; 0; 0; 0; 0; 0; 0; 0; 0; 0; 1; 102].
 
@@ -444,7 +444,7 @@ Proof.
   pose proof transfer_outlives_connection_w as H. vm_compute in H. vm_compute. tauto.
 Qed.
 
-(* with notes/fix_C19_1.diff: teardown leaves no descriptor behind, whatever the state *)
+(* since fix commit 4d56b95 (fix_f7 = true): teardown leaves no descriptor behind, whatever the state *)
 Theorem teardown_closes_fixed : forall cfg envs st,
   fix_f7 cfg = true ->
   let '(_, _, st') := run_gone cfg envs st in fd_open st' = false /\ lost_fds st' = lost_fds st.
@@ -458,7 +458,7 @@ Theorem teardown_can_block : exists cfg perms envs input,
   let '(_, _, st, _, _, _) := run_message cfg perms false envs input st0 in
   fst (fst (run_gone cfg [] st)) = false.
 Proof.
-  exists {| permit := true; has_cb := true; home := None; fix_f7 := false; fix_f14 := false |},
+  exists {| permit := true; has_cb := true; home := None; fix_f7 := false; fix_f14 := false; fix_f7b := false |},
          [true; true; true], [EOk; EFstat 5 [49]], req_input.
   vm_compute. reflexivity.
 Qed.
@@ -466,7 +466,7 @@ Qed.
 (* non-vacuity of the dynamic theorem: a run with effects and a refusal in the middle *)
 Example dynamic_nonvacuous :
   let '(_, evs, _, _, _, _) :=
-      run_message {| permit := true; has_cb := true; home := None; fix_f7 := false; fix_f14 := false |}
+      run_message {| permit := true; has_cb := true; home := None; fix_f7 := false; fix_f14 := false; fix_f7b := false |}
                   [true; true; true] false [EOk; EFstat 5 [49]] req_input st0 in
   evs = [Ask true; Ask true; Ask true; Fs (FOpenR [102]); Fs FFstat; Ask false; CloseClient; CloseClient].
 Proof. vm_compute. reflexivity. Qed.
@@ -474,11 +474,11 @@ Proof. vm_compute. reflexivity. Qed.
 (* non-vacuity of the hypotheses of the gate theorems: permission false at entry with the flag on and
    a callback that says no; permission true in the same world with another callback answer *)
 Example disabled_nonvacuous :
-  perm_now {| permit := true; has_cb := true; home := None; fix_f7 := false; fix_f14 := false |}
+  perm_now {| permit := true; has_cb := true; home := None; fix_f7 := false; fix_f14 := false; fix_f7b := false |}
            (mk_world [false; true] true [] req_input st0) = false /\
-  perm_now {| permit := true; has_cb := true; home := None; fix_f7 := false; fix_f14 := false |}
+  perm_now {| permit := true; has_cb := true; home := None; fix_f7 := false; fix_f14 := false; fix_f7b := false |}
            (mk_world [true; false] true [] req_input st0) = true /\
-  perm_now {| permit := false; has_cb := false; home := None; fix_f7 := false; fix_f14 := false |}
+  perm_now {| permit := false; has_cb := false; home := None; fix_f7 := false; fix_f14 := false; fix_f7b := false |}
            (mk_world [] true [] req_input st0) = false.
 Proof. vm_compute. auto. Qed.
 
